@@ -1,15 +1,15 @@
 /-
-  C13 — what gozodgen emits, as data, and how it is read.
+  C13 — the status of a generated file, and the generator's literal formatting.
 
-  * `GenCell`: one struct of the matrix — status of the generated file (parsed by go/parser, type-checked
-    by `go build`), and the constructor + method chain of its field's schema expression as parsed from
-    the emitted source (regenerated: `Gozod.Gen.genTable`).
-  * `denote`: the verdict of that chain on a probe under the primitive-schema semantics (C01 reading:
-    `Min/Max` = bound on value / byte length, `Email/URL/UUID/Regex` = format, `Optional/Nilable` = nil
-    accepted).  Validated against the compiled generated code on every probe by the harness.
+  * `Status`: what go/parser and `go build` say about a file gozodgen wrote (decided by the toolchain in the tie).
   * the generator's literal formatting of string parameters (`generateTypedValue` for `default=` /
-    `prefault=` on string fields: `fmt.Sprintf(".%s(\"%s\")", method, value)`; `regex=`: two
-    `strings.ReplaceAll`) and a reader for Go interpreted string literals.
+    `prefault=` on string fields: `strconv.Quote` since 8c56087; `regex=`: two `strings.ReplaceAll`) and a reader
+    for Go interpreted string literals.
+  * `emitDefault` is the formatting BEFORE 8c56087 (`fmt.Sprintf("\"%s\"", v)`): kept as a legacy witness only
+    (`Proofs/C13.lean`, section "legacy"); nothing executes it.
+
+  The semantics of an emitted chain (`denoteChain`) lives in `Model/GenSem.lean`, over the SAME `Call` / `CExpr`
+  structure `GenEmit.emitChain` produces (round 4c: there is one Call type).
 -/
 import Gozod.Model.Tags
 namespace Gozod.GenChain
@@ -18,51 +18,6 @@ open Gozod.Tags
 inductive Status | ok | noparse | notypecheck
   deriving DecidableEq, Repr
 
-inductive Call
-  | min (n : Int) | max (n : Int) | gt (n : Int) | gte (n : Int) | lt (n : Int) | lte (n : Int)
-  | email | url | regex | optional | nilable
-  | length (n : Nat) | positive | negative | nonnegative | nonpositive    -- round 4b: the writer with pending/C13-dropped-rules
-  | other (name : String)
-  deriving DecidableEq, Repr
-
-inductive Ctor
-  | prim            -- gozod.String() / Int8() / … / Bool(): the primitive constructor of the field's base type
-  | uuid            -- gozod.UUID()
-  | url             -- gozod.URL()  (round 4b: the writer with pending/C13-url-constructor)
-  | fromStruct      -- gozod.FromStruct[T]() for a named struct T
-  | other (src : String)
-  deriving DecidableEq, Repr
-
-structure GenCell where
-  fty : FTy
-  rules : List TRule
-  status : Status
-  ctor : Ctor
-  chain : List Call
-  deriving Repr
-
-/-- the tag rules a chain enforces -/
-def Call.rule? : Call → Option TRule
-  | .min n => some (.min n) | .max n => some (.max n)
-  | .gt n => some (.gt n) | .gte n => some (.gte n) | .lt n => some (.lt n) | .lte n => some (.lte n)
-  | .email => some .email | .url => some .url | .regex => some .regex
-  | .length n => some (.length n)
-  | .positive => some .positive | .negative => some .negative | .nonnegative => some .nonnegative | .nonpositive => some .nonpositive
-  | _ => none
-
-def chainRules (ctor : Ctor) (chain : List Call) : List TRule :=
-  (match ctor with | .uuid => [.uuid] | .url => [.url] | _ => []) ++ chain.filterMap Call.rule?
-
-def acceptsNil (chain : List Call) : Bool :=
-  chain.any fun c => match c with | .optional | .nilable => true | _ => false
-
-/-- verdict of the generated schema expression on a probe -/
-def denote (c : GenCell) (p : Probe) : Bool :=
-  match p with
-  | .nil => acceptsNil c.chain
-  | .inner ok => ok || (match c.fty.base with | .structT => false | _ => true)
-  | _ => (chainRules c.ctor c.chain).all (Spec.ruleHolds · p)
-
 /-! ### literal formatting -/
 abbrev Str := List Nat
 
@@ -70,7 +25,7 @@ def cDQ : Nat := 0x22
 def cBS : Nat := 0x5C
 def cNL : Nat := 0x0A
 
-/-- `fmt.Sprintf("\"%s\"", value)` — the argument text of `.Default("…")` for a string field -/
+/-- LEGACY (before 8c56087): `fmt.Sprintf("\"%s\"", value)` — the argument text of `.Default("…")` for a string field -/
 def emitDefault (p : Str) : Str := [cDQ] ++ p ++ [cDQ]
 
 /-- `strings.ReplaceAll(s, "\\", "\\\\")` -/
@@ -131,33 +86,5 @@ def goStringTail : Str → Option Str
 def goStringLit : Str → Option Str
   | [] => none
   | c :: tl => if c = cDQ then goStringTail tl else none
-
-/-! ### token syntax of the harness (`ctor;Call:arg;Call`) -/
-def Call.ofString? (s : String) : Call :=
-  match s.splitOn ":" with
-  | ["Min", n] => (n.toInt?.map Call.min).getD (.other s)
-  | ["Max", n] => (n.toInt?.map Call.max).getD (.other s)
-  | ["Gt", n] => (n.toInt?.map Call.gt).getD (.other s)
-  | ["Gte", n] => (n.toInt?.map Call.gte).getD (.other s)
-  | ["Lt", n] => (n.toInt?.map Call.lt).getD (.other s)
-  | ["Lte", n] => (n.toInt?.map Call.lte).getD (.other s)
-  | ["Length", n] => (n.toNat?.map Call.length).getD (.other s)
-  | ["Positive"] => .positive | ["Negative"] => .negative | ["NonNegative"] => .nonnegative | ["NonPositive"] => .nonpositive
-  | ["Email"] => .email | ["URL"] => .url
-  | ["Optional"] => .optional | ["Nilable"] => .nilable
-  | "Regex" :: _ => .regex
-  | _ => .other s
-
-def primCtors : List String :=
-  ["gozod.String()", "gozod.Int()", "gozod.Int8()", "gozod.Int16()", "gozod.Int32()", "gozod.Int64()",
-   "gozod.Uint()", "gozod.Uint8()", "gozod.Uint16()", "gozod.Uint32()", "gozod.Uint64()",
-   "gozod.Float32()", "gozod.Float64()", "gozod.Bool()"]
-
-def Ctor.ofString? (s : String) : Ctor :=
-  if primCtors.contains s then .prim
-  else if s == "gozod.UUID()" then .uuid
-  else if s == "gozod.URL()" then .url
-  else if s == "gozod.FromStruct[Inner]()" || s == "gozod.FromStruct[InnerT]()" then .fromStruct
-  else .other s
 
 end Gozod.GenChain
